@@ -427,7 +427,10 @@ def chosen_consumed(rec: Recorder) -> list[int]:
 
 
 def idle_event(rec: Recorder, cal, base_threads, raised: bool) -> dict:
-    extra = [t for t in threading.enumerate() if t not in base_threads and t.is_alive() and not t.daemon]
+    # threads started by the calibration and still alive (joblib/loky keep their own pool-management threads: not black-it's)
+    extra = [t for t in threading.enumerate() if t not in base_threads and t.is_alive() and not t.daemon
+             and not t.name.startswith(("ExecutorManagerThread", "QueueManagerThread", "QueueFeederThread", "LokyProcess"))
+             and "loky" not in type(t).__module__ and "joblib" not in type(t).__module__]
     return {"e": "idle", "bi": int(cal.current_batch_index), "ns": int(cal.n_sampled_params),
             "lens": [len(cal.params_samp), len(cal.losses_samp), len(cal.series_samp), len(cal.batch_num_samp), len(cal.method_samp)],
             "rows": project_rows(rec, cal), "table": {k: int(v) for k, v in cal.samplers_id_table.items()},
